@@ -31,6 +31,11 @@ package index
 //@   returns_fresh
 //@   may_panic
 //@   dead_return -1
+// Every kind of node is translated; the "unknown type" panic at the end is
+// reached by no Type node of a documented kind except type:repo (which the sharded searcher
+// evaluates before the query reaches a shard): in particular not by
+// type:filematch, the documented default.
+//@   assert at call:Panicf: !typeis(q, "*query.Type") || as(q, "*query.Type").Type >= 2
 //@   loop 1:
 //@     invariant true
 //@   loop 2:
